@@ -82,6 +82,13 @@ def representations(c, kind, dom, m=2, n=2, N=2):
     oaf = model.forward(af)
     c.holds('cuqiarray_funvals_in_gives_cuqiarray_out', isinstance(oaf, CUQIarray) and oaf.is_par)
     c.eq('forward_of_cuqiarray_function_values', np.asarray(oaf), spec)
+    # the same function values carried by a DISTINCT geometry object of the same configuration (the user built it a second time): same result,
+    # whatever the model's own geometry object has been used for in the meantime
+    if dom != 'Grad' and not dom.startswith('Mapped'):
+        gd2 = dom_geom(dom, n); gd2 = cuqi.geometry._DefaultGeometry1D(gd2) if isinstance(gd2, int) else gd2
+        c.holds('an_equally_configured_geometry_object_compares_equal_after_use', bool(gd2 == gd) and bool(gd == gd2))
+        af2 = CUQIarray(gd.par2fun(p), is_par=False, geometry=gd2)
+        c.eq('forward_of_function_values_carrying_an_equal_geometry_object', np.asarray(model.forward(af2)), spec)
     c.eq('call_is_forward', model(p), spec)
     P = c.vec('s', n * N).reshape(n, N)
     S = model.forward(Samples(P, gd))
